@@ -1,5 +1,6 @@
 import ProbLogProofs.Lemmas.CyclesDer
 import ProbLogProofs.Lemmas.CyclesLfp
+import ProbLogProofs.Lemmas.CyclesStable
 /-!
 # C09 — cycle-breaking half: cut evaluation = least fixpoint (property theorems only)
 
@@ -143,5 +144,70 @@ def exNeg : Store := { nodes := [.conj [some (-1)] none] }
 theorem C09_cutEval_eq_lfp_needs_positive :
     ¬ Positive exNeg ∧ cutEval exNeg (fun _ => false) 2 [] (some 1) ≠ lfpEval exNeg (fun _ => false) 2 (some 1) := by
   decide
+
+/-! ### stratified negation: cut evaluation = the unique stable (= perfect) model -/
+
+/-- On a stratified store (negative edges to compound nodes go strictly down a level mapping, i.e. no cycle passes
+    through such an edge) the cut evaluation is the least model of the reduct w.r.t. its own valuation … -/
+theorem C09_cutEval_eq_reduct_lfp {S : Store} {lvl : Nat → Nat} (hst : Stratified S lvl) (α : Nat → Bool) (k : Key) :
+    cutEval S α (S.nodes.length + 1) [] k = lfp (reduct S (cutν S α)) α k := by
+  cases k with
+  | none => unfold lfp; rw [cutEval_none, lfpEval_none]
+  | some k =>
+    rw [cutEval_reduct hst _ [] k (by rw [free_nil]; omega) (by intro x hx; cases hx)]
+    have := C09_cutEval_eq_lfp (positive_reduct S (cutν S α)) α (some k)
+    unfold lfp
+    rw [reduct_length] at this ⊢
+    exact this
+
+/-- … i.e. the valuation computed by the cut evaluation is a stable model … -/
+theorem C09_cut_stable_model {S : Store} {lvl : Nat → Nat} (hst : Stratified S lvl) (α : Nat → Bool) :
+    StableModel S α (cutν S α) :=
+  fun j _ => C09_cutEval_eq_reduct_lfp hst α (some (j : Int))
+
+/-- … and it is the only one. -/
+theorem C09_stable_model_unique {S : Store} {lvl : Nat → Nat} (hst : Stratified S lvl) {α : Nat → Bool}
+    {ν : Nat → Bool} (hν : StableModel S α ν) (j : Nat) (hj : 0 < j) : ν j = cutν S α j :=
+  stable_agree hst hν (C09_cut_stable_model hst α) (lvl j + 1) j hj (Nat.lt_succ_self _)
+
+/-- Loop cutting with stratified negation: for every stable model `ν` of the cyclic store (there is exactly one), the
+    cut evaluation gives every key its value in the least model of the reduct w.r.t. `ν`. -/
+theorem C09_loop_cut_stratified {S : Store} {lvl : Nat → Nat} (hst : Stratified S lvl) {α : Nat → Bool}
+    {ν : Nat → Bool} (hν : StableModel S α ν) (k : Key) :
+    cutEval S α (S.nodes.length + 1) [] k = lfp (reduct S ν) α k := by
+  rw [C09_cutEval_eq_reduct_lfp hst α k]
+  cases k with
+  | none => unfold lfp; rw [lfpEval_none, lfpEval_none]
+  | some k =>
+    unfold lfp
+    rw [reduct_length, reduct_length]
+    exact lfpEval_reduct_congr hst _ k (fun x hx _ => (C09_stable_model_unique hst hν x hx).symm)
+
+/-- A positive store is stratified (constant level mapping) and is its own reduct, so the stratified theorem
+    specialises to `C09_cutEval_eq_lfp`. -/
+theorem C09_positive_is_stratified {S : Store} (hS : Positive S) (ν : Nat → Bool) :
+    Stratified S (fun _ => 0) ∧ reduct S ν = S :=
+  ⟨stratified_of_positive hS, reduct_of_positive hS ν⟩
+
+/-- nodes: 1,2 atoms; 3 = disj [1,4], 4 = conj [3,2] (positive cycle, level 1);
+    5 = conj [¬3, 2], 6 = disj [5, 7], 7 = conj [6, ¬4] (positive cycle 6 ↔ 7 on level 2, negating level 1). -/
+def exStrat : Store :=
+  { nodes := [.atom (.user 1) none false none, .atom (.user 2) none false none,
+              .disj [some 1, some 4] none, .conj [some 3, some 2] none,
+              .conj [some (-3), some 2] none, .disj [some 5, some 7] none, .conj [some 6, some (-4)] none] }
+
+def exLvl : Nat → Nat := fun i => if i ≤ 2 then 0 else if i ≤ 4 then 1 else 2
+
+example : Stratified exStrat exLvl := by decide
+example : ¬ Positive exStrat := by decide
+example : cutEval exStrat exβ 8 [] (some 6) = true ∧ lfp (reduct exStrat (cutν exStrat exβ)) exβ (some 6) = true := by
+  decide
+example : cutEval exStrat exα 8 [] (some 6) = false ∧ lfp (reduct exStrat (cutν exStrat exα)) exα (some 6) = false := by
+  decide
+example : cutEval exStrat exα 8 [] (some 7) = false ∧ cutEval exStrat exβ 8 [] (some 7) = true := by decide
+
+/-- `exNeg` (`p :- \+p`) has no stratification with … any level mapping: the hypothesis is not vacuous-by-default. -/
+theorem C09_exNeg_not_stratified (lvl : Nat → Nat) : ¬ Stratified exNeg lvl := by
+  simp [Stratified, stratifiedBy, exNeg, stratKey]
 
 end ProbLogProofs.C09
